@@ -1,6 +1,7 @@
 /- Driver ops for C19: the specification side (causal risk difference of a completion), exact at `Rat`. -/
 import Driver.Common
 import ZepidVerif.Model.Measures
+import ZepidVerif.Model.FrechetM
 import ZepidVerif.Model.Potential
 namespace ZVD
 open ZV
